@@ -78,6 +78,10 @@ func C11_peers_agree() {
 	case 5:
 		d.ReadBufferSize, u.ReadBufferSize = 16, 16
 	}
+	// an extra request header after the library's own lines (longer than the small read buffers)
+	if vBool("extraheader") {
+		d.Header = ws.HandshakeHeaderString("X-Extra-Long-Header-Name: 0123456789012345678901234567890123456789\r\n")
+	}
 	peer := &vPeer{up: &u}
 	if env == 6 {
 		peer.chunk = 1
@@ -90,6 +94,7 @@ func C11_peers_agree() {
 	if cerr != nil || peer.srvErr != nil {
 		return
 	}
+	vPoisonPools() // whatever the handshakes returned must not live in recycled buffers
 	vAssert(vEqStr(chs.Protocol, peer.srvHS.Protocol), "peers.same_subprotocol")
 	vAssert(vOptsEqual(chs.Extensions, peer.srvHS.Extensions), "peers.same_extensions")
 	// ... and with what was offered (names and parameter values), when the server takes offers as they are
